@@ -249,14 +249,44 @@ pub fn run_trial(ctx: &Ctx, env: &Env, t: &Trial, cs: u64) {
                     remaining.retain(|x| *x != s);
                 }
             }
+            // the connections of the pre-state (open and silent, or stalled inside a head) are
+            // "other connections" too: close them one by one
+            let mut pre_kicked = 0usize;
+            while witness.is_none() && !remaining.is_empty() && !pre_conns.is_empty() {
+                drop(pre_conns.remove(0));
+                pre_kicked += 1;
+                let t0 = Instant::now();
+                let mut woke = None;
+                while t0.elapsed() < Duration::from_millis(150) && woke.is_none() {
+                    for s in &remaining {
+                        if let Some(c) = conns[*s].0.as_mut() {
+                            if let Got::Msg = c.await_finals(1, &|_| false, Duration::from_millis(2)) {
+                                woke = Some(*s);
+                                break;
+                            }
+                        }
+                    }
+                }
+                if let Some(s) = woke {
+                    witness = Some((s, usize::MAX - pre_kicked, t0.elapsed().as_micros() as u64));
+                    remaining.retain(|x| *x != s);
+                }
+            }
             rep.eval(Some(&sig));
             if let Some((s, a, us)) = witness {
                 rep.violation(Violation {
                     signature: "C08/served-only-after-other-connection-closed".into(),
-                    what: format!(
-                        "connection {} of a burst of {} got no response for 1.5 s while all stayed open; it was answered {} us after connection {} was closed",
-                        s, t.n, us, a
-                    ),
+                    what: if a > usize::MAX / 2 {
+                        format!(
+                            "connection {} of a burst of {} got no response for 1.5 s while all stayed open; it was answered {} us after a connection that had been open (silent or stalled inside its head) since before the burst was closed",
+                            s, t.n, us
+                        )
+                    } else {
+                        format!(
+                            "connection {} of a burst of {} got no response for 1.5 s while all stayed open; it was answered {} us after connection {} was closed",
+                            s, t.n, us, a
+                        )
+                    },
                     detail: detail(J::obj().set("stalled", J::A(stalled.iter().map(|x| J::u(*x)).collect())).set("closed_in_order", J::A(kicks.iter().map(|x| J::u(*x)).collect()))),
                     case_seed: cs,
                     mode: if t.settle_ms >= 5000 { "retire".into() } else { "native".into() },
